@@ -21,46 +21,7 @@ Proof.
   - vm_compute. discriminate.
 Qed.
 
-(* ---------------------------------------------------------------- bounded sweep: re-chunking is a fixed point *)
-Definition sweep_alphabet : list chunk :=
-  [ mkChunk (Some Label) 0 [97; 58]%N;                               (* a: *)
-    mkChunk (Some Label) 2 [97; 98; 99; 100; 101; 102; 58]%N;        (* abcdef:  (wider than the small margins) *)
-    mkChunk None 0 [120]%N;                                          (* x *)
-    mkChunk None 2 [121; 32; 122]%N;                                 (* y z, indent 2 *)
-    mkChunk None 0 [32]%N;                                           (* a blank *)
-    mkChunk None 0 [NL];
-    mkChunk None 2 [NL];
-    mkChunk None 0 [32; 10]%N;                                       (* " \n": a newline behind a pending space *)
-    mkChunk (Some Comment) 0 [47; 42; 99; 42; 47]%N;                 (* /*c*/ *)
-    mkChunk (Some Comment) 2 [47; 47; 100]%N ].                      (* //d *)
-
-Definition sweep_options : list options :=
-  map (fun p : nat * nat * alignment => mkOptions Lowercase Lowercase SameLine 4 (fst (fst p)) (snd p) (snd (fst p)))
-      [ (0, 0, ALeft); (0, 4, ARight); (3, 0, ALeft); (3, 0, ARight); (3, 4, ALeft); (3, 4, ARight); (9, 0, ARight); (9, 4, ALeft) ].
-
-(* all lists of length <= n *)
-Fixpoint lists_of (n : nat) (alphabet : list chunk) : list (list chunk) :=
-  match n with
-  | 0 => [[]]
-  | S m => [] :: flat_map (fun c => map (cons c) (lists_of m alphabet)) alphabet
-  end.
-
-Definition fixed_at (o : options) (cs : list chunk) : bool :=
-  implb (stable_chunks cs) (text_eqb (join_chunks (rechunk cs o) o) (join_chunks cs o)).
-
-Lemma sweep_4 : forallb (fun o => forallb (fixed_at o) (lists_of 4 sweep_alphabet)) sweep_options = true.
-Proof. vm_cast_no_check (eq_refl true). Qed.
-
-Lemma join_fixed_bounded : forall cs o,
-  In o sweep_options -> In cs (lists_of 4 sweep_alphabet) -> stable_chunks cs = true ->
-  join_chunks (rechunk cs o) o = join_chunks cs o.
-Proof.
-  intros cs o Ho Hcs Hst.
-  pose proof (proj1 (forallb_forall _ _) sweep_4 o Ho) as H1. cbv beta in H1.
-  pose proof (proj1 (forallb_forall _ _) H1 cs Hcs) as H2.
-  unfold fixed_at in H2. rewrite Hst in H2. apply text_eqb_eq. exact H2.
-Qed.
-
+(* ---------------------------------------------------------------- the guard of the re-chunking fixed point *)
 (* the guard is needed: a label chunk that contains its own line break ends its line in the first run, while a label
    followed by a newline chunk keeps its statement on the same line *)
 Lemma join_fixed_needs_stable : exists cs o, stable_chunks cs = false /\ join_chunks (rechunk cs o) o <> join_chunks cs o.
